@@ -565,7 +565,7 @@ func sealRegions(s *xzSeed) []sealRegion {
 // c04Judge reads one modified stream under one schedule of buffer lengths and applies the
 // oracle; it returns true when a violation was reported (further schedules are skipped).
 func c04Judge(c *ev.Ctx, s *xzSeed, kind string, arg, bi int, id, name string, mod []byte, schedName string, sched []int, first bool, edits []xzEdit) (violated bool) {
-	out, cerr, rerr, pn := openReadSched("xz", mod, 0, sched)
+	out, cerr, rerr, after, pn := openReadSchedAfter("xz", mod, 0, sched)
 	if first {
 		c.Eval(id, true)
 		c.Count("mod:"+classOf(name), 1)
@@ -589,6 +589,13 @@ func c04Judge(c *ev.Ctx, s *xzSeed, kind string, arg, bi int, id, name string, m
 			return
 		}
 		clean := cerr == nil && rerr == nil
+		if after != "" && (s.Check != 0 || j.kind == "edit" || j.kind == "sealflip") {
+			// the damage was reported, but a caller that reads on is then told that the stream
+			// ended regularly (or is given more data): a clean end after wrong content
+			det["what"] = fmt.Sprintf("%s at %d: %s; %d bytes had been delivered (content %d bytes, equal=%v)", name, j.arg, after, len(out), len(s.Content), bytes.Equal(out, s.Content))
+			viol("error-then-clean-end:"+classOf(name), det)
+			return
+		}
 		if j.kind == "sealflip" {
 			// The flipped field is consistent with its CRC32 again, so only a cross-check against
 			// the rest of the stream can object.  If the strict reference still accepts the file
